@@ -18,16 +18,19 @@ class PROP(Prop):
     title = "dumps bytes == format-v2 reference (opcode letters fixed in the sidecar); legacy opcodes under the two coercion switches; version byte; strconfig plumbing"
     design_ref = "DESIGN.md section 4, C12"
     targets = ENCODER + [U_ + n for n in ("load_py2string", "load_py3string", "load_unicode", "load_int", "load_longint", "_decode_utf8", "load")] + [
-        f"{GB}:Unserializer.__init__#none", f"{GB}:Unserializer.__init__#channel", f"{GB}:Unserializer.__init__#gateway", f"{GB}:load", f"{GB}:loads", f"{GB}:loads_internal#none", f"{GB}:loads_internal#channel", f"{GB}:loads_internal#gateway", f"chan::{GB}:Channel.reconfigure", "gw::execnet.gateway:Gateway.reconfigure"]
-    heavy = {f"{GB}:Unserializer.load": 6, S_ + "_save": 6, S_ + "save_list": 2, S_ + "save_dict": 2}
+        f"{GB}:Unserializer.__init__#none", f"{GB}:Unserializer.__init__#channel", f"{GB}:Unserializer.__init__#gateway", f"{GB}:load", f"{GB}:loads", f"{GB}:loads_internal#none", f"{GB}:loads_internal#channel", f"{GB}:loads_internal#gateway", f"chan::{GB}:Channel.reconfigure", "gw::execnet.gateway:Gateway.reconfigure",
+        f"chan::{GB}:Channel.setcallback",      # the coercion pair recorded for a callback is the channel's own
+        f"mr::{GB}:Message.received"]           # RECONFIGURE on the receiving side: gateway (id 0) or that channel, decoded with the gateway's pair
+    heavy = {f"{GB}:Unserializer.load": 6, S_ + "_save": 6, S_ + "save_list": 2, S_ + "save_dict": 2, f"mr::{GB}:Message.received": 6, f"chan::{GB}:Channel.setcallback": 4}
     assumptions = [
         "the reference encoder `enc` in contracts/serializer.py is written from the statement (letters @A..T as literals, big-endian 4-byte lengths and small ints, ASCII decimal big ints, big-endian IEEE doubles, post-order containers, Q) and stands in for what execnet >= 1.1 on Python 2 emitted",
         "the decoder's result is a deterministic function of (data, versioned, the two switches, inside-a-gateway): decode_v, assumed at call sites of Unserializer.load only",
         "as C01 for struct/utf-8/decimal axioms",
     ]
     not_decided = ["interpreters 3.10-3.13: the axioms are differentially tested on the one interpreter installed (3.12)",
-                   "the RECONFIGURE handler on the receiving side: decided with the channel layer (Message.received, C02); Channel.reconfigure and Gateway.reconfigure are verified here (worlds chan, gw)"]
+                   "the RECONFIGURE handler on the receiving side is verified here (world mr: Message.received against the protocol's decision table); Channel.reconfigure and Gateway.reconfigure in worlds chan, gw"]
     extra_worlds = {"chan": lambda w: __import__("contracts.channel", fromlist=["declare"]).declare(w),
+                    "mr": lambda w: __import__("contracts.channel", fromlist=["declare_dispatch"]).declare_dispatch(w),
                     "gw": lambda w: (__import__("contracts.channel", fromlist=["declare"]).declare(w), __import__("contracts.gateway", fromlist=["declare"]).declare(w))}
 
     def setup(self, w):
